@@ -189,9 +189,13 @@ func (w *World) onWire(kind string, v any, enc []byte) {
 			_ = guard(func() {
 				(&types.V2Transaction{FileContractResolutions: []types.V2FileContractResolution{{}}}).ID()
 			})
-			_ = guard(func() {
-				(&types.V2Transaction{SiacoinInputs: []types.V2SiacoinInput{{}}}).FullHash()
-			})
+			// (the very next thing hashed is the one a left-over would spoil)
+			for k := 0; k < 3; k++ {
+				if got := (&types.V2Transaction{ArbitraryData: []byte{byte(k)}}).ID(); got != ref.V2TxnID(types.V2Transaction{ArbitraryData: []byte{byte(k)}}) {
+					w.violate(w.propAmong("C12", "C09"), "id-after-recovered-panic", fmt.Sprintf("after a caller recovered from a panic inside an ID computation, the ID of the next transaction hashed is %v; by the specified layout it is %v", got, ref.V2TxnID(types.V2Transaction{ArbitraryData: []byte{byte(k)}})))
+					break
+				}
+			}
 			w.stats.Inc("probe.wire.recovered-hash-panic")
 		}
 		if b.V2 == nil {
